@@ -448,6 +448,75 @@ struct Gen {
 
 }  // namespace
 
+// ------------------------------------------------------------------------------------------------ sweeps
+// Bounded fault enumeration for tiny blocks (DESIGN 2.6): the channel's drop decision is enumerated instead of drawn -
+// every one of the 2^n received subsets of every configuration in a fixed list, each with one seeded arrival order,
+// duplicate pattern and submission API. Same executor, same oracles.
+std::vector<SweepConfig> sweep_configs(const std::string &prof, uint64_t seed) {
+    std::vector<SweepConfig> v;
+    if (prof == "C02") {
+        for (uint32_t n = 2; n <= 15; n++) for (uint32_t k = 1; k < n; k++) v.push_back({C_RS2M, 4, k, n - k, 0, 0});
+        for (uint32_t n = 2; n <= 10; n++) for (uint32_t k = 1; k < n; k++) { v.push_back({C_RS2M, 8, k, n - k, 0, 0}); v.push_back({C_RS8, 0, k, n - k, 0, 0}); }
+    } else if (prof == "C03" || prof == "C04") {
+        Rng g(mix64(seed, 0x5EED));
+        for (uint32_t N1 = 3; N1 <= 6; N1++)
+            for (uint32_t k = 1; k <= 8; k++)
+                for (uint32_t r = N1; k + r <= 12; r++)
+                    v.push_back({C_LDPC, 0, k, r, N1, (uint32_t)g.range(1, 2147483646LL)});
+    } else if (prof == "C16") {
+        for (uint32_t k = 1; k <= 16; k++) for (uint32_t r = 1; k + r <= 24; r++) { uint32_t a, b; if (twod_factor(k, r, a, b)) v.push_back({C_2D, 0, k, r, 0, 0}); }
+    }
+    return v;
+}
+
+uint64_t sweep_total(const std::string &prof, uint64_t seed) {
+    uint64_t t = 0;
+    for (auto &c : sweep_configs(prof, seed)) t += 1ULL << (c.k + c.r);
+    return t;
+}
+
+Plan generate_sweep_plan(uint64_t seed, uint64_t index, const GenOptions &opt) {
+    static std::string cached_prof; static uint64_t cached_seed = ~0ULL; static std::vector<SweepConfig> cfgs; static std::vector<uint64_t> start;
+    if (cached_prof != opt.profile || cached_seed != seed) {
+        cfgs = sweep_configs(opt.profile, seed); start.assign(cfgs.size() + 1, 0);
+        for (size_t i = 0; i < cfgs.size(); i++) start[i + 1] = start[i] + (1ULL << (cfgs[i].k + cfgs[i].r));
+        cached_prof = opt.profile; cached_seed = seed;
+    }
+    Plan p; p.seed = seed; p.run = index; p.profile = opt.profile; p.gen["sweep"] = 1;
+    size_t ci = std::upper_bound(start.begin(), start.end(), index) - start.begin() - 1;
+    if (ci >= cfgs.size()) return p;
+    const SweepConfig &c = cfgs[ci];
+    uint64_t mask = index - start[ci];
+    Rng g(mix64(mix64(seed, index), 0x53574550));
+    p.scramble = (g.next() % 2147483646ULL) + 1;
+    Flow f; f.id = 0; f.codec = c.codec; f.m = c.m; f.k = c.k; f.r = c.r; f.N1 = c.N1; f.pseed = c.pseed;
+    f.E = 1 + (uint32_t)g.below(9); f.payload = g.chance(0.8) ? "rand" : "ident"; f.plseed = g.next() & 0xffffffffu;
+    if (f.payload == "ident" && f.E * 8 < f.k) f.E = (f.k + 7) / 8;
+    p.flows.push_back(f);
+    Session s; s.id = 0; s.flow = 0; s.codec = c.codec; s.m = c.m; s.role = R_DEC; s.tx = "ref"; s.tag = "sweep"; s.align = (int)g.below(16);
+    double u = g.unit();
+    if (opt.profile == "C04") s.mode = "stream";
+    else if (opt.profile == "C03") s.mode = u < 0.5 ? "finish" : "batch";
+    else s.mode = u < 0.3 ? "stream" : u < 0.65 ? "finish" : "batch";
+    s.cb = g.chance(0.2) ? (g.chance(0.5) ? "buf" : "mix") : "none"; s.cbseed = g.next() & 0xffff;
+    p.sessions.push_back(s);
+    auto op = [&](const char *o, int64_t esi = -1, uint64_t rs = 0) { Op x; x.t = (int64_t)p.ops.size(); x.ses = 0; x.op = o; x.esi = esi; x.rs = rs; p.ops.push_back(x); };
+    op("CREATE"); op("SETP"); if (s.cb != "none") op("SETCB");
+    std::vector<uint32_t> got;
+    uint32_t n = c.k + c.r;
+    for (uint32_t e = 0; e < n; e++) if (mask & (1ULL << e)) got.push_back(e);
+    if (!got.empty()) g.shuffle(got.data(), got.size());
+    for (uint32_t e : got) {
+        op(s.mode == "batch" ? "STORE" : "DELIVER", e);
+        if (g.chance(0.05)) op(s.mode == "batch" ? "STORE" : "DELIVER", got[g.below(got.size())]);
+    }
+    if (s.mode == "batch") op("SETAVAIL");
+    if (s.mode != "stream") op("FINISH", -1, (g.next() & 0xffffff) + 1);
+    op("RELEASE");
+    p.gen["dropped"] = (int64_t)(n - got.size()); p.gen["delivered"] = (int64_t)got.size();
+    return p;
+}
+
 Plan generate_plan(uint64_t seed, uint64_t run, const GenOptions &opt) {
     Hash64 h; h.str(opt.profile.c_str());
     uint64_t s = mix64(mix64(seed, run), h.h);
